@@ -116,6 +116,33 @@ func (d *c09Descent) run(fn *ssa.Function, owner ssa.Value, depth int) {
 			o.OK("guarded: " + d.what + " not paused (or being deleted) on every path")
 			continue
 		}
+		if alts, isMerge := p.mwInvokeAlternatives(call); isMerge {
+			// the receiver is an element of a list chosen among several: every list that holds a
+			// writing callee must be chosen only when not paused
+			allOK := true
+			var notes []string
+			for _, alt := range alts {
+				writes := false
+				for _, g := range alt.Callees {
+					if len(p.mwWriteEffects(g)) > 0 {
+						writes = true
+					}
+				}
+				if !writes {
+					notes = append(notes, "list "+p.describe(alt.List)+" holds no writing callee")
+					continue
+				}
+				if p.mwHoldsCaseSplit(p.FactsOnEdge(alt.From, alt.To), d.notPaused(owner), 0) || p.mwHoldsOnAllPaths(alt.From, d.notPaused(owner)) {
+					notes = append(notes, "list "+p.describe(alt.List)+" is chosen only when not paused")
+					continue
+				}
+				allOK = false
+			}
+			if allOK {
+				o.OK("guarded per list the receiver is taken from: " + strings.Join(notes, "; "))
+				continue
+			}
+		}
 		if ws, isW := classifyWriter(call); isW {
 			if d.allow != nil {
 				if ok, why := d.allow(d, fn, owner, call, ws); ok {
@@ -553,29 +580,172 @@ func c09AllPhasesPausedFn(p *Program, g *ssa.Function) (bool, string) {
 	return true, ""
 }
 
+// c09FieldAlt is one value a field of a condition value can have when it is handed to
+// SetStatusCondition (Val nil: still the zero value) with what is known on the ways on which that
+// definition is the one in effect.
+type c09FieldAlt struct {
+	Val   ssa.Value
+	Facts []Fact
+}
+
+func c09FieldIndex(t types.Type, name string) int {
+	if pt, ok := t.Underlying().(*types.Pointer); ok {
+		t = pt.Elem()
+	}
+	if st, ok := t.Underlying().(*types.Struct); ok {
+		for i := 0; i < st.NumFields(); i++ {
+			if st.Field(i).Name() == name {
+				return i
+			}
+		}
+	}
+	return -1
+}
+
+// c09FieldAlts: the values field `field` of the struct value v can hold — v is a literal, a local
+// variable filled field by field or assigned as a whole (per reaching definition, fieldDefsAt), a
+// zero constant or a merge of those. ok=false: v is something else, or the variable's address is
+// handed out.
+func (p *Program) c09FieldAlts(v ssa.Value, field string, depth int) (alts []c09FieldAlt, ok bool) {
+	v = stripConv(v)
+	if depth > 4 {
+		return nil, false
+	}
+	switch x := v.(type) {
+	case *ssa.Const:
+		if x.Value == nil {
+			return []c09FieldAlt{{}}, true
+		}
+	case *ssa.UnOp:
+		a, isAlloc := x.X.(*ssa.Alloc)
+		if x.Op != token.MUL || !isAlloc {
+			return nil, false
+		}
+		idx := c09FieldIndex(a.Type(), field)
+		if idx < 0 {
+			return nil, false
+		}
+		defs, ok := p.fieldDefsAt(a, idx, x, nil)
+		if !ok {
+			return nil, false
+		}
+		for _, d := range defs {
+			if d.Whole == nil {
+				alts = append(alts, c09FieldAlt{Val: d.Val, Facts: d.Facts})
+				continue
+			}
+			sub, ok := p.c09FieldAlts(d.Whole, field, depth+1)
+			if !ok {
+				return nil, false
+			}
+			for _, sa := range sub {
+				alts = append(alts, c09FieldAlt{Val: sa.Val, Facts: c09MergeFacts(d.Facts, sa.Facts)})
+			}
+		}
+		return alts, true
+	case *ssa.Phi:
+		for i, e := range x.Edges {
+			if i >= len(x.Block().Preds) {
+				return nil, false
+			}
+			sub, ok := p.c09FieldAlts(e, field, depth+1)
+			if !ok {
+				return nil, false
+			}
+			ef := p.FactsOnEdge(x.Block().Preds[i], x.Block())
+			for _, sa := range sub {
+				alts = append(alts, c09FieldAlt{Val: sa.Val, Facts: c09MergeFacts(ef, sa.Facts)})
+			}
+		}
+		return alts, true
+	}
+	return nil, false
+}
+
+func c09MergeFacts(a, b []Fact) []Fact {
+	fs := factSet{}
+	for _, f := range a {
+		fs[f.key] = f
+	}
+	for _, f := range b {
+		fs[f.key] = f
+	}
+	return fs.list()
+}
+
 func c09r3(c *Ctx) {
 	p := c.P
 	nTrue := 0
 	for _, pk := range []string{pkgObjectSets, pkgObjSetPhases} {
 		for _, fn := range p.FuncsIn(pk) {
 			for _, cs := range conditionSets(fn) {
-				if cs.Type != "Paused" {
-					if cs.Type == "" && cs.Fields != nil {
-						// non-constant type: could be Paused
-						if _, isConst := constString(cs.Fields["Type"]); !isConst && cs.Fields["Type"] != nil {
-							c.Ob(fn, "SetStatusCondition-dynamic-type", cs.Call.Instr, "condition type must be constant to decide whether it is Paused").Unknown("condition Type is %s", p.describe(cs.Fields["Type"]))
+				// Type and Status of the condition value as it is when the call runs, one entry per
+				// reaching definition (a literal has one; a variable filled field by field has one per
+				// assignment that can be the last, each with what is known on its way to the call)
+				types_, tOK := p.c09FieldAlts(cs.Call.Common.Args[1], "Type", 0)
+				if !tOK {
+					if cs.Fields != nil {
+						if _, isConst := constString(cs.Fields["Type"]); !isConst {
+							c.Ob(fn, "SetStatusCondition-dynamic-type", cs.Call.Instr, "condition type must be constant to decide whether it is Paused").Unknown("the condition's Type cannot be read per definition (the variable's address is handed out)")
+						} else if cs.Type == "Paused" {
+							c.Ob(fn, "Paused-dynamic-status", cs.Call.Instr, "status of the Paused condition must be constant").Unknown("the condition's fields cannot be read per definition (the variable's address is handed out)")
 						}
 					}
 					continue
 				}
-				if cs.Status != "True" {
-					if cs.Status == "" {
-						c.Ob(fn, "Paused-dynamic-status", cs.Call.Instr, "status of the Paused condition must be constant").Unknown("Status is not a constant")
+				mayBePaused, dynType := false, ssa.Value(nil)
+				for _, ta := range types_ {
+					if ta.Val == nil {
+						continue // Type still the zero value
 					}
+					t, isConst := constString(ta.Val)
+					if !isConst {
+						dynType = ta.Val
+					} else if t == "Paused" {
+						mayBePaused = true
+					}
+				}
+				if dynType != nil {
+					// non-constant type: could be Paused
+					c.Ob(fn, "SetStatusCondition-dynamic-type", cs.Call.Instr, "condition type must be constant to decide whether it is Paused").Unknown("condition Type is %s", p.describe(dynType))
 					continue
 				}
-				if pfDeadByFacts(p.FactsAt(cs.Call.Block())) {
-					continue // copy of the write under contradictory guards (never executes)
+				if !mayBePaused {
+					continue
+				}
+				stats, sOK := p.c09FieldAlts(cs.Call.Common.Args[1], "Status", 0)
+				if !sOK {
+					c.Ob(fn, "Paused-dynamic-status", cs.Call.Instr, "status of the Paused condition must be constant").Unknown("the condition's Status cannot be read per definition")
+					continue
+				}
+				// the definitions of Status that write True, each judged under the facts of the call
+				// together with those of the ways on which that definition is the one in effect
+				var trueAlts [][]Fact
+				dynStatus := false
+				for _, sa := range stats {
+					if sa.Val == nil {
+						continue // Status still "" — not True
+					}
+					st, isConst := constString(sa.Val)
+					if !isConst {
+						dynStatus = true
+						continue
+					}
+					if st != "True" {
+						continue
+					}
+					fs := c09MergeFacts(p.FactsAt(cs.Call.Block()), sa.Facts)
+					if pfDeadByFacts(fs) {
+						continue // copy of the write under contradictory guards (never executes)
+					}
+					trueAlts = append(trueAlts, fs)
+				}
+				if dynStatus {
+					c.Ob(fn, "Paused-dynamic-status", cs.Call.Instr, "status of the Paused condition must be constant").Unknown("Status is not a constant")
+					continue
+				}
+				if len(trueAlts) == 0 {
+					continue
 				}
 				nTrue++
 				o := c.Ob(fn, "Paused=True", cs.Call.Instr, "Paused=True is reported only when the object's spec says paused (ObjectSet: and every remote phase reports Paused)")
@@ -584,19 +754,21 @@ func c09r3(c *Ctx) {
 					o.Unknown("conditions argument is not X.GetConditions()")
 					continue
 				}
-				fs := p.mwExpandFacts(p.FactsAt(cs.Call.Block()))
 				var problems []string
-				if _, ok := p.mwFactAccessor(fs, true, "IsSpecPaused", func(r ssa.Value) bool { return p.sameValue(r, x) }); !ok {
-					problems = append(problems, "not guarded by IsSpecPaused() == true of the object whose condition is set")
-				} else {
-					o.Note("T:IsSpecPaused(" + p.describe(x) + ")")
-				}
-				if mwHasMethod(x.Type(), "GetRemotePhases") {
-					ok, why := c09RemotePhasesPausedFact(p, fn, fs, x)
-					if !ok {
-						problems = append(problems, why)
+				for _, raw := range trueAlts {
+					fs := p.mwExpandFacts(raw)
+					if _, ok := p.mwFactAccessor(fs, true, "IsSpecPaused", func(r ssa.Value) bool { return p.sameValue(r, x) }); !ok {
+						problems = append(problems, "not guarded by IsSpecPaused() == true of the object whose condition is set")
 					} else {
-						o.Note(why)
+						o.Note("T:IsSpecPaused(" + p.describe(x) + ")")
+					}
+					if mwHasMethod(x.Type(), "GetRemotePhases") {
+						ok, why := c09RemotePhasesPausedFact(p, fn, fs, x)
+						if !ok {
+							problems = append(problems, why)
+						} else {
+							o.Note(why)
+						}
 					}
 				}
 				if len(problems) > 0 {
